@@ -1,6 +1,6 @@
 SPECIFICATION Spec
 CONSTANTS
-  Universe = "M5"
-  MaxLines = 5
+  Universe = "M6"
+  MaxLines = 4
 INVARIANT MachineOK
 CHECK_DEADLOCK FALSE
